@@ -4606,7 +4606,13 @@ static void DecodeFMOVE(Word Code) {
                             WAsmCode[1] |= (AdrResult.Mode << 4) | 0x1000;
                             break;
                         case ModImm:
-                            WAsmCode[1] |= (AdrResult.Vals[0] & 127);
+                            /* the k-factor is a 7-bit two's complement number: -64..+63 */
+                            if ((AdrResult.Vals[0] & 0xc0) && ((AdrResult.Vals[0] & 0xc0) != 0xc0)) {
+                                WrStrErrorPos(ErrNum_OverRange, &KArg);
+                                CodeLen = 0;
+                            } else {
+                                WAsmCode[1] |= (AdrResult.Vals[0] & 127);
+                            }
                             break;
                         default:
                             CodeLen = 0;
